@@ -211,6 +211,64 @@ def honoured_counts(ctx, n):
     return out
 
 
+def many_members(ctx, n):
+    """Long HONEST inputs: a multi-geometry (or a polygon, or a collection) with 500-1500 small real members and every
+    count far below its limit (4096 per level). Nothing is forged, nothing may be refused - and the memory stays "bounded by
+    the input length plus the configured limits": a decoder that copies everything accumulated so far for every member
+    allocates a multiple of members x input. Marked noref (tens of kilobytes)."""
+    rnd = random.Random(ctx.seed * 104729 + 5)
+    out = []
+    kinds = ["mls", "mpt", "mpg", "rings", "gc"]
+    for i in range(n):
+        flavor = rnd.choice(["wkb", "ewkb"])
+        xdr = rnd.random() < 0.5
+        dim = rnd.choice([0, 0, 1, 3])
+        stride = {0: 2, 1: 3, 2: 3, 3: 4}[dim]
+        o = [0 if xdr else 1]
+        kind = kinds[i % len(kinds)]
+        # (the decoded geometry stays below the 8192 ordinates at which the driver records a placeholder instead of the tree)
+        per = dict(mls=3, mpt=1, mpg=8, rings=8, gc=2)[kind] * stride
+        m = min(rnd.choice([500, 1000, 1500]), 7000 // per)
+
+        def pts(k, count=True):
+            b = u32(k, xdr) if count else []
+            for _ in range(k * stride):
+                b += [64, rnd.randrange(256), 0, 0, 0, 0, 0, 0] if xdr else [0, 0, 0, 0, 0, 0, rnd.randrange(256), 64]
+            return b
+
+        def ring():
+            first = pts(1, False)
+            return u32(4, xdr) + first + pts(2, False) + first
+        if kind == "mls":
+            b = o + type_word(5, dim, False, flavor, xdr) + u32(m, xdr)
+            for _ in range(m):
+                b += o + type_word(2, dim, False, flavor, xdr) + pts(rnd.choice([2, 2, 3]))
+        elif kind == "mpt":
+            b = o + type_word(4, dim, False, flavor, xdr) + u32(m, xdr)
+            for _ in range(m):
+                b += o + type_word(1, dim, False, flavor, xdr) + pts(1, False)
+        elif kind == "mpg":
+            m //= 2
+            b = o + type_word(6, dim, False, flavor, xdr) + u32(m, xdr)
+            for _ in range(m):
+                b += o + type_word(3, dim, False, flavor, xdr) + u32(1, xdr) + ring()
+        elif kind == "rings":
+            m //= 2
+            b = o + type_word(3, dim, False, flavor, xdr) + u32(m, xdr)
+            for _ in range(m):
+                b += ring()
+        else:
+            b = o + type_word(7, dim if flavor == "wkb" else 0, False, flavor, xdr) + u32(m, xdr)
+            for j in range(m):
+                if j % 2:
+                    b += o + type_word(1, dim, False, flavor, xdr) + pts(1, False)
+                else:
+                    b += o + type_word(2, dim, False, flavor, xdr) + pts(2)
+        out.append(dict(bytes=b, flavor=flavor, nan=False, lim=[4096, 4096, 4096], via=rnd.choice(["", "", "hex"]), noref=True,
+                        multi=True, wrap="", hexcodes=[]))
+    return out
+
+
 def domain_pass(ctx, cands):
     """TLC (WKBDecObs!NextDom) evaluates the reference decoder with all limits off on every candidate and reports the
     largest count field it meets: the property's domain with a limit disabled is 'counts backed by actual input'."""
@@ -275,7 +333,9 @@ def run(ctx, verdict):
     bases = sorted(outb["BASE"], key=vlib.digest)
     if not bases:
         raise vlib.Infra("no valid encodings from WKBMut_base.cfg")
-    extra = seeded(ctx, bases) + honoured_counts(ctx, 60 if ctx.quick else 2000)
+    many = many_members(ctx, 10 if ctx.quick else 100)
+    ctx.coverage_extra["many_member_inputs"] = dict(count=len(many), bytes_max=max(len(c["bytes"]) for c in many))
+    extra = seeded(ctx, bases) + honoured_counts(ctx, 60 if ctx.quick else 2000) + many
     cases = sorted(cases + extra, key=vlib.digest)
     vlib.note_cases(ctx, cases, nontrivial=lambda c: len(c["bytes"]) > 5 or len(c["hexcodes"]) > 10)
     ctx.coverage_extra["model_a"] = [dict(cfg=cfg, cases=len(out["CASE"]), states=r["distinct"]),
